@@ -82,11 +82,10 @@ Theorem C07_argument_order :
   [[bos "ctx"; bos "&evmclient.TxRequest{ To: &p.preconfContractAddr, CallData: callData, }"]].
 Proof. exact (conj store_call_order (conj store_params_order (conj pack_args_order send_args_wiring))). Qed.
 Print Assumptions C07_argument_order.
-(* Not modelled here: the path from the TxRequest{To, CallData} handed to client.Send to the raw
-   transaction that reaches the node (evmclient.newTx copies To and CallData; nonce, gas and signing are
-   C08's model, which abstracts the payload).  The theorems speak about what is handed to client.Send; that
-   the raw transaction carries the same destination and calldata is observed by the end-to-end class of the
-   driver (real node.NewNode over an in-process JSON-RPC endpoint, eth_sendRawTransaction decoded). *)
+(* The path from the TxRequest{To, CallData} handed to client.Send to the transaction that reaches the node
+   (evmclient.Send / newTx) is model/EvmTx.v; see C07_transaction_carries_commitment at the end of this file.
+   Outside the model: the RLP bytes and the signature of the raw transaction (the driver class raw-tx decodes
+   them with go-ethereum and recovers the sender on every case). *)
 
 (* Headline, without any premise about the history: whenever a commitment c has been written to a bidder
    (any event list), and its fields are Go values (int64 block number / timestamps, byte strings, calldata
@@ -165,3 +164,130 @@ Theorem C07_settled_equals_signed :
                                        (b_dig b) (b_sig b).
 Proof. exact Compose_provider.settled_equals_signed. Qed.
 Print Assumptions C07_settled_equals_signed.
+
+(* ---- composition with the chain client (model/EvmTx.v: evmclient.Send, newTx, suggestMaxFeeAndTipCap) --------
+   Non-vacuity: EvmTx_proofs.ex_store_accepted, PreconfProvider_traces (a written commitment exists). *)
+From MevVerif Require model.EvmSend model.EvmTx proofs.EvmTx_proofs.
+
+(* The source text of newTx's transaction literal, of the EstimateGas argument and of the sign / submit calls of
+   Send, regenerated on every run: To: req.To, Data: req.CallData, Value: req.Value, Gas: req.GasLimit, the pair
+   returned by suggestMaxFeeAndTipCap is (gasPrice, gasTipCap). *)
+Theorem C07_newtx_wiring :
+  Generated.c07_newtx_tx_args =
+  [[bos "&types.DynamicFeeTx{ Nonce: nonce, ChainID: c.chainID, To: req.To, Value: req.Value, Gas: req.GasLimit, GasFeeCap: gasFeeCap, GasTipCap: gasTipCap, Data: req.CallData, }"]] /\
+  Generated.c07_newtx_estimate_args =
+  [[bos "ctx"; bos "ethereum.CallMsg{ From: c.owner, To: req.To, Data: req.CallData, Value: req.Value, }"]] /\
+  Generated.c07_newtx_suggest_args = [[bos "ctx"; bos "req.GasPrice"]] /\
+  nth 0 Generated.c07_suggest_stmts [] = bos "gasTipCap, err := c.ethClient.SuggestGasTipCap(ctx)" /\
+  nth 3 Generated.c07_suggest_stmts [] = bos "return gasPrice, gasTipCap, nil" /\
+  Generated.c07_send_sign_args = [[bos "txnData"; bos "c.chainID"]] /\
+  Generated.c07_send_submit_args = [[bos "ctx"; bos "signedTx"]].
+Proof. exact EvmTx_proofs.newtx_wiring. Qed.
+Print Assumptions C07_newtx_wiring.
+
+(* Whatever evmclient.Send puts on the wire for ANY request carries the request unchanged (destination, calldata,
+   value or zero), the client's chain id, the gas limit given or else the node's estimate, the node's suggested tip,
+   as fee cap the given GasPrice or else the node's suggested gas price, and the nonce EvmSend.get_nonce computes
+   from the pending answer of this very request, inside the in-flight window; it was signed; and it is the last
+   call made. *)
+Theorem C07_wire_transaction_fields : forall chain owner ctr conf rq a c r calls t,
+  EvmTx.send_tx chain owner ctr conf rq a = (c, r, calls) -> EvmTx.tx_of r = Some t ->
+  EvmTx.tx_chain t = chain /\ EvmTx.tx_to t = EvmTx.rq_to rq /\ EvmTx.tx_data t = EvmTx.rq_data rq /\
+  EvmTx.tx_value t = EvmTx.big_or_zero (EvmTx.rq_value rq) /\
+  EvmTx_proofs.gas_of rq a = Some (EvmTx.tx_gas t) /\ EvmTx.a_tip a = Some (EvmTx.tx_tip t) /\
+  EvmTx_proofs.fee_of rq a = Some (EvmTx.tx_feecap t) /\
+  (exists p, EvmTx.a_pending a = Some p /\ EvmTx.tx_nonce t = snd (EvmSend.get_nonce ctr p) /\
+             EvmSend.allow_nonce conf (EvmTx.tx_nonce t) = true) /\
+  EvmTx.a_sign a = true /\
+  last calls EvmTx.CPending = EvmTx.CSubmit t.
+Proof. exact EvmTx_proofs.send_tx_fields. Qed.
+Print Assumptions C07_wire_transaction_fields.
+
+(* Headline through the chain client.  Whenever a commitment c has been written to a bidder (any event list; Go
+   int64 numbers, byte strings, calldata shorter than 2^63): the handler called client.Send with StoreCommitment's
+   request {To: configured contract, CallData: cd} and the client reported success, and EVERY transaction
+   evmclient.Send can put on the wire for that request -- for all values of the client's nonce counter, the confirmed
+   nonce, the chain id, and all answers of the chain node -- has To = the configured contract, carries no value,
+   ABI-decodes field by field to the decimal bid amount (in [1,2^64)), block number, transaction-hash string, decay
+   window, bid signature and commitment signature of that very commitment, has as gas limit, tip cap and fee cap the
+   node's estimate and suggestions, and the nonce of the C08 machine; it was either taken or refused by the node
+   (never followed by a crash). *)
+Theorem C07_transaction_carries_commitment : forall K addr evs h c,
+  let S := run K rules_validators (node_wiring addr) evs in
+  In (HWrite h c) (heff S) ->
+  (4 <= length (K (Abi.method_sig store_name store_tys)))%nat ->
+  (b_bn (c_bid c) < 9223372036854775808)%Z -> (b_ds (c_bid c) < 9223372036854775808)%Z ->
+  (b_de (c_bid c) < 9223372036854775808)%Z ->
+  wf_bytes (b_tx (c_bid c)) -> wf_bytes (b_sig (c_bid c)) -> wf_bytes (c_sig c) ->
+  (forall amt, Abi.blen (Abi.encode (store_args amt c)) < Abi.two63) ->
+  exists amt cd,
+    (0 < amt < 18446744073709551616)%Z /\ parse_bigint (b_amt (c_bid c)) = Some amt /\
+    In (HSend h addr cd) (heff S) /\ In (HStored h true) (heff S) /\
+    forall chain owner ctr conf a ctr' r calls t,
+      EvmTx.send_tx chain owner ctr conf (EvmTx.store_request addr cd) a = (ctr', r, calls) -> EvmTx.tx_of r = Some t ->
+      EvmTx.tx_to t = Some addr /\ EvmTx.tx_value t = 0%Z /\ EvmTx.tx_chain t = chain /\
+      Abi.decode_call store_tys (EvmTx.tx_data t) =
+        Some (Abi.selector K (Abi.method_sig store_name store_tys),
+              [Abi.VUint64 (Z.to_N amt); Abi.VUint64 (Z.to_N (b_bn (c_bid c))); Abi.VString (b_tx (c_bid c));
+               Abi.VUint64 (Z.to_N (b_ds (c_bid c))); Abi.VUint64 (Z.to_N (b_de (c_bid c)));
+               Abi.VBytes (b_sig (c_bid c)); Abi.VBytes (c_sig c)]) /\
+      EvmTx.a_est a = Some (EvmTx.tx_gas t) /\ EvmTx.a_tip a = Some (EvmTx.tx_tip t) /\
+      EvmTx.a_price a = Some (EvmTx.tx_feecap t) /\
+      (exists p, EvmTx.a_pending a = Some p /\ EvmTx.tx_nonce t = snd (EvmSend.get_nonce ctr p)) /\
+      (r = EvmTx.TAccepted t \/ r = EvmTx.TRejected t).
+Proof. exact EvmTx_proofs.transaction_carries_commitment. Qed.
+Print Assumptions C07_transaction_carries_commitment.
+
+(* Fee-cap arithmetic the code relies on (the comment in suggestMaxFeeAndTipCap: the node's gas price is suggested
+   tip + base fee).  Under that reading of the node's answers the transaction built for a request without GasPrice is
+   well formed (0 <= tip <= fee cap), includable at that base fee, and pays exactly the suggested price with the full
+   tip ... *)
+Theorem C07_fee_cap_covers_suggested_tip : forall chain owner ctr conf rq a c r calls t base tip,
+  EvmTx.send_tx chain owner ctr conf rq a = (c, r, calls) -> EvmTx.tx_of r = Some t ->
+  EvmTx.rq_price rq = None -> EvmTx.a_tip a = Some tip -> EvmTx.a_price a = Some (base + tip)%Z ->
+  (0 <= base)%Z -> (0 <= tip)%Z ->
+  EvmTx.tx_tip t = tip /\ EvmTx.tx_feecap t = (base + tip)%Z /\
+  EvmTx.fee_wellformed t = true /\ EvmTx.includable t base = true /\
+  EvmTx.effective_price t base = (base + tip)%Z /\ EvmTx.effective_tip t base = tip.
+Proof. exact EvmTx_proofs.fee_facts_suggested. Qed.
+Print Assumptions C07_fee_cap_covers_suggested_tip.
+
+(* ... with no headroom: at a higher base fee the producer's tip shrinks by exactly the increase, and above
+   base + tip the transaction cannot be included at all. *)
+Theorem C07_fee_cap_no_headroom : forall t base tip base',
+  EvmTx.tx_tip t = tip -> EvmTx.tx_feecap t = (base + tip)%Z -> (0 <= tip)%Z -> (base < base')%Z ->
+  EvmTx.effective_tip t base' = (tip - (base' - base))%Z /\
+  ((base + tip < base')%Z -> EvmTx.includable t base' = false).
+Proof. exact EvmTx_proofs.fee_no_headroom. Qed.
+Print Assumptions C07_fee_cap_no_headroom.
+
+(* With a caller-chosen GasPrice the fee cap is that price while the tip stays the node's suggestion: the
+   transaction is well formed exactly when the suggestion does not exceed the given price (a witness of an
+   ill-formed accepted-by-the-model transaction: EvmTx_proofs.given_price_below_tip_illformed). *)
+Theorem C07_given_price_wellformed_iff : forall chain owner ctr conf rq a c r calls t p tip,
+  EvmTx.send_tx chain owner ctr conf rq a = (c, r, calls) -> EvmTx.tx_of r = Some t ->
+  EvmTx.rq_price rq = Some p -> EvmTx.a_tip a = Some tip -> (0 <= tip)%Z ->
+  (EvmTx.fee_wellformed t = true <-> (tip <= p)%Z).
+Proof. exact EvmTx_proofs.fee_wellformed_given. Qed.
+Print Assumptions C07_given_price_wellformed_iff.
+
+(* "... a transaction to the CONFIGURED commitment-store contract": the configured address is the value of the flag
+   preconf-contract, which cmd/main.go carries in the PreconfContract field of node.Options (tables regenerated from
+   cmd/main.go on every run) and which node.NewNode turns into the address handed to the commitment store (regenerated
+   source text); it depends on no other flag.  [addr] of the theorems above is that address. *)
+From MevVerif Require model.Config proofs.Config_proofs.
+Theorem C07_configured_contract_is_the_flag : forall env, exists o,
+  Config.launch_options env = Some o
+  /\ Config.o_preconf_contract o = env (bos "preconf-contract")
+  /\ Config.o_provider_registry_contract o = env (bos "provider-registry-contract")
+  /\ Config.o_bidder_registry_contract o = env (bos "bidder-registry-contract")
+  /\ Config.node_contract_wiring_ok = true.
+Proof. exact Config_proofs.configured_contracts_from_flags. Qed.
+Print Assumptions C07_configured_contract_is_the_flag.
+
+Theorem C07_configured_contract_depends_on_its_flag_only : forall env env' o o',
+  env (bos "preconf-contract") = env' (bos "preconf-contract") ->
+  Config.launch_options env = Some o -> Config.launch_options env' = Some o' ->
+  Config.o_preconf_contract o = Config.o_preconf_contract o'.
+Proof. exact Config_proofs.preconf_contract_depends_on_its_flag_only. Qed.
+Print Assumptions C07_configured_contract_depends_on_its_flag_only.
